@@ -147,7 +147,15 @@ def check(rec, part, depth, n, spec, desc, imposed):
                     want_scan = [(c, d.get(c, 0)) for c in range(dim)]
                     size_want = dim
                 else:
-                    got_scan = want_scan = None
+                    # bit-vector fiber: scan through setupSlice / nextInSlice (mask position + running payload handle)
+                    fobj.setupSlice(0)
+                    got_scan = []
+                    for _guard in range(dim + 2):
+                        h = fobj.nextInSlice()
+                        if h is None:
+                            break
+                        got_scan.append((fobj.handleToCoord(h), fobj.payloadToValue(fobj.handleToPayload(h))))
+                    want_scan = [(c, v) for c, v in elems]
                     size_want = math.ceil(dim / 32) + len(elems)
                 size = fobj.getSize()
             except Exception as e:
@@ -207,10 +215,23 @@ def run(tier, seed):
         imposed = rnd.choice([None, None, [3, 2, 3]])
         rec.case("depth3", (spec_key(spec), desc, repr(imposed)))
         check(rec, "depth3", 3, 2, spec, desc, imposed)
+    # at scale: long fibers and large dimensions (several mask words / cache lines, binary searches of depth 5+)
+    for _ in range(40 if tier == "quick" else 500):
+        dim = rnd.choice([40, 130, 300])
+        cnt = rnd.choice([1, 4, 12, 30])
+        cs = sorted(rnd.sample(range(dim), min(cnt, dim)))
+        if rnd.random() < 0.5:
+            cs = sorted(set(cs) | {dim - 1, (dim // 128) * 128 - 1 if dim > 128 else dim - 2})
+        cs = [c for c in cs if c >= 0]
+        spec = {c: 1 + (c % 3) for c in cs}
+        desc = (rnd.choice("UCB"),)
+        rec.case("scale", (spec_key(spec), desc, dim))
+        check(rec, "scale", 1, dim, spec, desc, None)
     return rec.result("every fiber over 4 coordinates x {U,C,B}; coordinate lists over 9 coordinates (binary search); depth-2 trees over 3 coordinates "
                       "(explicit defaults, empty sub-fibers, all-zero tensor) x all 9 descriptors; seeded random depth-3 tensors x random descriptors; "
                       "each with and without an imposed larger shape; decoder written from the layouts only; leaf fibers scanned through the handle "
-                      "interface with a stub cache; coordToHandle for every query; getSize of leaf fibers")
+                      "interface with a stub cache (B fibers through setupSlice/nextInSlice); coordToHandle for every query; getSize of leaf fibers; "
+                      "plus seeded random leaf fibers at scale (dimensions 40-300, up to 30 elements)")
 
 
 def replay(case):
